@@ -172,7 +172,7 @@ def run_program(prog, diagnose=False):
     if attrname != 'data': setattr(plain, attrname, plain.data)
     problems, states, notes = [], [], []
     out = dict(problems=problems, states=states, notes=notes, changed=False, refused=0, both_raise=0,
-               executed_steps=0, untracked_after=None, raised=[])
+               executed_steps=0, untracked_after=None, raised=[], refused_steps=[])
     del SQLLOG[:]
     try:
         with orm.db_session:
@@ -196,6 +196,7 @@ def run_program(prog, diagnose=False):
                 if ex_t is not None and ex_p is None:
                     # Pony refused something plain Python does: allowed; the oracle forgets the step
                     out['refused'] += 1
+                    out['refused_steps'].append(i)
                     notes.append('refused:%s' % ex_t)
                     plain.data = before
                     if attrname != 'data': setattr(plain, attrname, before)
@@ -277,7 +278,8 @@ def signature(prog, res):
     r = run_program(first)
     if r['problems']: return signature(first, r)
     doc = copy.deepcopy(prog['docvalue']) if prog.get('docvalue') is not None else space.document(prog['vk'], prog['doc'])
-    mid = space.apply_plain(prog['vk'], doc, prog['steps'][0])
+    # a first step that Pony refused had no effect
+    mid = doc if 0 in res.get('refused_steps', ()) else space.apply_plain(prog['vk'], doc, prog['steps'][0])
     if mid is not None:
         second = dict(base, steps=prog['steps'][1:], meta=metas[1:], docvalue=mid)
         r = run_program(second)
